@@ -89,6 +89,11 @@ def store_effect(cn, ev):
             return Effect(ev, "row", base, idx[2], "ROW", "ALL", d["value"])
         if idx[0] == "slice":
             return Effect(ev, "block", base, idx, "ALL", "ALL", d["value"])
+        if idx[0] == "tuple" and len(idx[1]) == 2 and idx[1][0][0] == "slice" \
+                and idx[1][0][1] == C(None) and idx[1][0][2] == C(None):
+            # T[:, col] = v : one column of every row
+            fam, elem = cn.index_family(idx[1][1])
+            return Effect(ev, "column", base, "ALL-ROWS", fam, elem, d["value"])
         return Effect(ev, "row", base, ("idx", idx), "ROW", "ALL", d["value"])
     if cn._is_vector(base):
         fam, elem = cn.index_family(idx)
